@@ -147,6 +147,13 @@ Proof.
   destruct (N.eqb_spec k0 k); [tauto|]. destruct (k <? k0); [reflexivity|]. apply IH; tauto.
 Qed.
 
+Lemma get_ks_mem st k : keys_sorted st -> get_ks st k <> empty_ks -> In (k, get_ks st k) st.
+Proof.
+  induction st as [|[k0 v0] r IH]; intros Hs Hne; cbn [get_ks] in *; [congruence|].
+  apply keys_sorted_cons in Hs. destruct Hs as [Hr _].
+  destruct (N.eqb_spec k0 k); [subst; left; reflexivity|]. destruct (k <? k0); [congruence|]. right. apply IH; assumption.
+Qed.
+
 (* ------------------------------------------------------------------ fold of per-key updates *)
 Section Fold.
   Variable P : kstate -> Prop.
